@@ -839,6 +839,34 @@ pub fn gen_program_wide(rng: &mut Rng) -> Program {
         let exs: Vec<u32> = (first..first + n_ex).collect();
         nodes.push(Node { kind: Kind::Nm, expr: if rng.chance(1, 2) { Expr::Join(exs) } else { Expr::Unord(exs) } });
     }
+    // many firewalls below one node (added after seeded change C02-6): the
+    // repair of the transitive firewall callees of a node runs in chunks of
+    // `len / (4 * available_parallelism)`; 9-20 firewalls with 1 or 2 CPUs
+    // give chunks of 2-5 and a remainder
+    if rng.chance(1, 2) {
+        let n_fw = rng.range(9, 20) as u32;
+        let mut fws: Vec<u32> = Vec::new();
+        // every firewall over an input of its own: a session that changes
+        // one of them changes exactly one firewall (a second changed callee
+        // would make the node above re-execute and ask all of them again)
+        let first_in = nodes.len() as u32;
+        for _ in 0..n_fw {
+            nodes.push(Node { kind: Kind::In, expr: Expr::Const(vec![]) });
+        }
+        for i in 0..n_fw {
+            let src = first_in + i;
+            let e = match rng.below(3) {
+                0 => Expr::Read(src),
+                1 => Expr::Cat(b(Expr::Read(src)), b(Expr::Const(vec![i64::from(i)]))),
+                _ => Expr::Add(b(Expr::Read(src)), b(Expr::Const(vec![i64::from(i)]))),
+            };
+            nodes.push(Node { kind: Kind::Fw, expr: e });
+            fws.push(nodes.len() as u32 - 1);
+        }
+        nodes.push(Node { kind: Kind::Nm, expr: if rng.chance(1, 2) { Expr::Join(fws) } else { Expr::Unord(fws) } });
+        let over = nodes.len() as u32 - 1;
+        nodes.push(Node { kind: Kind::Nm, expr: Expr::Add(b(Expr::Read(over)), b(Expr::Const(vec![1]))) });
+    }
     Program { nodes }
 }
 
@@ -859,7 +887,8 @@ pub fn gen_history_wide(rng: &mut Rng, prog: &Program) -> Vec<Op> {
     for t in &tops {
         ops.push(Op::Query { root: *t, new_tracked: false });
     }
-    for _ in 0..rng.range(1, 3) {
+    let many_fw = prog.of_kind(Kind::Fw).len() >= 9;
+    for _ in 0..if many_fw { rng.range(3, 6) } else { rng.range(1, 3) } {
         // a changing session
         let idx = rng.usize(st.inputs.len());
         {
@@ -877,6 +906,9 @@ pub fn gen_history_wide(rng: &mut Rng, prog: &Program) -> Vec<Op> {
         order.truncate(rng.range(2, 8).min(order.len() as u64) as usize);
         for t in order {
             ops.push(Op::Query { root: t, new_tracked: rng.chance(1, 4) });
+        }
+        if rng.chance(1, 2) {
+            ops.push(Op::Query { root: n - 1, new_tracked: rng.chance(1, 4) });
         }
         if !exs.is_empty() {
             // the world moves a little, everything is refreshed
